@@ -124,11 +124,11 @@ Deliver ==
          /\ Chk("C05", "delivery-result", ResClass(E.res) = d.res)
          \* C06: a failing call leaves the document as it was when the call was made
          /\ Chk("C06", "error-leaves-applied", ResClass(E.res) = "err" => S(E.obs.applied) = d.preA)
-         /\ Chk("C06", "error-leaves-queue", ResClass(E.res) = "err" => S(E.obs.queued) = d.preQ)
-         \* ... and even the named deviation (KNOWN_FINDINGS: the rejected actor's queued branch is
-         \* pruned) touches nothing else
+         \* the named deviation (KNOWN_FINDINGS: the rejected actor's queued branch is pruned) touches nothing
+         \* else; evaluated first, so that a failure of "error-leaves-queue" alone means exactly that deviation
          /\ Chk("C06", "error-prunes-at-most-the-rejected-actors-branch",
                 ResClass(E.res) = "err" => S(E.obs.queued) = d.queue)
+         /\ Chk("C06", "error-leaves-queue", ResClass(E.res) = "err" => S(E.obs.queued) = d.preQ)
          /\ ObsOK(r, d.applied, d.queue, chg)
          /\ Adopt(r)
          /\ UNCHANGED <<chg, actor, digests>>
@@ -141,9 +141,9 @@ Merge ==
      IN  /\ Chk("C10", "changes-added-set", S(E.added) = applied[s] \ applied[r])
          /\ Chk("C05", "delivery-result", ResClass(E.res) = d.res)
          /\ Chk("C06", "error-leaves-applied", ResClass(E.res) = "err" => S(E.obs.applied) = applied[r])
-         /\ Chk("C06", "error-leaves-queue", ResClass(E.res) = "err" => S(E.obs.queued) = queue[r])
          /\ Chk("C06", "error-prunes-at-most-the-rejected-actors-branch",
                 ResClass(E.res) = "err" => S(E.obs.queued) = d.queue)
+         /\ Chk("C06", "error-leaves-queue", ResClass(E.res) = "err" => S(E.obs.queued) = queue[r])
          /\ ObsOK(r, d.applied, d.queue, chg)
          /\ Adopt(r)
          /\ UNCHANGED <<chg, actor, digests>>
